@@ -10,7 +10,8 @@ use std::sync::atomic::{AtomicU64, Ordering};
 use std::time::Duration;
 
 pub const RULE: &str = "a case = one generated history of 1-3 checks (outcomes: success no-update, success with install, \
-transport failure, HTTP status, forged, unparseable body, plan creation failure; pings in reboot waits with outcomes ok / \
+transport failure, HTTP status, forged, unparseable body, plan creation failure, request construction failure (junk \
+service URL, 1 history in 8); pings in reboot waits with outcomes ok / \
 transport / forged / unparseable; clock stepping at every interaction), run once to the end and then RE-RUN ONCE PER \
 ENVIRONMENT INTERACTION with the process killed at that interaction (uncommitted storage discarded) and a new state machine \
 built on the surviving storage. Oracle: a model triple (failures since last success, last-contact window, poll interval): \
@@ -26,7 +27,7 @@ pub static CRASH_RUNS: AtomicU64 = AtomicU64::new(0);
 pub static CRASH_BETWEEN_WRITES: AtomicU64 = AtomicU64::new(0);
 
 pub fn profile() -> Profile {
-    Profile { outcome_w: [10, 3, 1, 1, 3, 2, 3], cup: (1, 3), offer_w: 4, retry_after: (1, 5), max_apps: 2, cohorts: false, ..Default::default() }
+    Profile { outcome_w: [10, 3, 1, 1, 3, 2, 3], cup: (1, 3), offer_w: 4, retry_after: (1, 5), max_apps: 2, cohorts: false, junk_url: (1, 8), ..Default::default() }
 }
 
 #[derive(Clone, Copy, Debug, PartialEq)]
@@ -198,7 +199,8 @@ pub fn check_history(h: &Hist) -> Result<(bool, Vec<&'static str>), Failure> {
                         "request:cup-validation" => "forged",
                         "parse" => "unparseable",
                         "install-plan" => "plan_failure",
-                        _ => "http_status_or_construction",
+                        "request:http-builder" | "request:cup-decoration" | "request:json" => "construction_failure",
+                        _ => "http_status",
                     },
                 });
                 // the announcement itself carries the new pair
